@@ -27,8 +27,16 @@ def registry():
     return json.load(open(os.path.join(VERIF, "checks.json")))
 
 
-def gen_gomod():
-    subprocess.check_call([sys.executable, os.path.join(VERIF, "lib", "gen_gomod.py")])
+def gen_gomod(outdir=None):
+    """Per-run modfile (so concurrent runs against different VERIF_REPO trees do not interfere);
+    harness/go.mod itself always points at /repo and only exists so the directory is a module."""
+    if not os.path.exists(os.path.join(H, "go.mod")):
+        e = dict(os.environ); e["VERIF_REPO"] = "/repo"
+        subprocess.check_call([sys.executable, os.path.join(VERIF, "lib", "gen_gomod.py")], env=e)
+    if outdir:
+        subprocess.check_call([sys.executable, os.path.join(VERIF, "lib", "gen_gomod.py"), outdir])
+        return os.path.join(outdir, "go.mod")
+    return os.path.join(H, "go.mod")
 
 
 def overlay_args(tmp):
@@ -40,7 +48,7 @@ def overlay_args(tmp):
 
 
 def build(pkg, out, race, overlay, tmp, log, tags="verif"):
-    cmd = ["go", "test", "-tags", tags, "-vet=off", "-c", "-o", out]
+    cmd = ["go", "test", "-modfile=" + os.path.join(tmp, "go.mod"), "-tags", tags, "-vet=off", "-c", "-o", out]
     if race:
         cmd.append("-race")
     if overlay:
@@ -87,13 +95,10 @@ def validate_evidence(path, pid, tier, level):
         return "rule missing"
     if not isinstance(c.get("samples"), list) or len(c["samples"]) < 1:
         return "no samples"
-    try:
-        import jsonschema  # optional
-        jsonschema.validate(ev, json.load(open("/root/.vp/EVIDENCE.schema.json")))
-    except ImportError:
-        pass
-    except Exception as e:
-        return "schema: %s" % str(e)[:300]
+    p = subprocess.run([sys.executable, os.path.join(VERIF, "lib", "validate.py"), "/root/.vp/EVIDENCE.schema.json", path],
+                       stdout=subprocess.PIPE, stderr=subprocess.STDOUT)
+    if p.returncode != 0:
+        return "schema: %s" % p.stdout.decode()[:300]
     return None
 
 
@@ -104,10 +109,10 @@ def run_check(pid, tier, replay=None, keep=False):
         return 2
     spec = reg["checks"][pid]
     t0 = time.time()
-    gen_gomod()
     tmp = "/var/tmp/verif-run-%s-%d" % (pid, os.getpid())
     shutil.rmtree(tmp, ignore_errors=True)
     os.makedirs(tmp + "/ev")
+    gen_gomod(tmp)
     os.makedirs(tmp + "/cwd")
     logdir = os.path.join(VERIF, "logs")
     os.makedirs(logdir, exist_ok=True)
@@ -234,7 +239,6 @@ def run_check(pid, tier, replay=None, keep=False):
 
 
 def setup():
-    gen_gomod()
     reg = registry()
     pkgs, racepkgs, ovl = set(), set(), set()
     for pid, spec in reg["checks"].items():
@@ -250,11 +254,12 @@ def setup():
     rc = 0
     tmp = "/var/tmp/verif-setup-%d" % os.getpid()
     os.makedirs(tmp, exist_ok=True)
+    gen_gomod(tmp)
     try:
         for label, ps, extra in (("plain", pkgs, []), ("race", racepkgs, ["-race"])):
             if not ps:
                 continue
-            cmd = ["go", "test", "-tags", "verif", "-vet=off", "-count=1", "-run", "^$"] + extra + ["./" + p for p in sorted(ps)]
+            cmd = ["go", "test", "-modfile=" + os.path.join(tmp, "go.mod"), "-tags", "verif", "-vet=off", "-count=1", "-run", "^$"] + extra + ["./" + p for p in sorted(ps)]
             print("$", " ".join(cmd), flush=True)
             p = subprocess.run(cmd, cwd=H, env=env)
             rc |= p.returncode
